@@ -169,6 +169,40 @@ def _run(facts, rep, tier):
     if bad:
         rep.add(Finding("R02.1", "line transformed by %s before the gate" % "+".join(bad),
                         "the line passes through %s before get_message: the result may depend on more than its hex digits" % bad, reg.loc(gm[0][0])))
+    # a reused read buffer is part of that way: between the read and the gate its content may only lose a terminator that
+    # is known to be there (an unconditional pop / truncate eats a digit of an unterminated last line)
+    try:
+        from ..linebuf import READERS, _mut_base, analyse as _lb
+        from ..mirq import controlling_decisions
+        from .c13 import PURE_IO
+        _ex, _bufs, _pr = _lb(reg, reg.du, PURE_IO)
+        EDITS = {"pop", "truncate", "remove", "swap_remove", "drain", "retain", "push", "insert", "extend", "extend_from_slice", "resize",
+                 "split_off", "dedup", "set_len", "append", "rotate_left", "rotate_right", "reverse", "sort", "fill"}
+        for bi in sorted(reg.blocks):
+            t = reg.proc.blocks[bi]["term"]
+            if t["k"] != "call" or not t["args"]:
+                continue
+            nm = t["callee"].get("name")
+            if nm not in EDITS:
+                continue
+            base = _mut_base(reg.du, t["args"][0])
+            if base not in _bufs:
+                continue
+            guarded = False
+            if nm in ("pop", "truncate"):
+                # `if buf.last() == Some(&b'\n') { buf.pop(); }` / `if buf.ends_with(b"\n") { .. }`
+                for sbb, vals, live in controlling_decisions(reg.proc, reg.cfg, bi):
+                    de = expr(reg.du, reg.proc.blocks[sbb]["term"]["discr"])
+                    if any(x[0] == "call" and x[1].split("::")[-1] in ("last", "ends_with", "strip_suffix") for x in walk(de)):
+                        guarded = True
+            rep.oblige(guarded, ("buffer-edit", bi))
+            if not guarded:
+                rep.add(Finding("R02.1", "line buffer edited by %s before the gate" % nm,
+                                "the read buffer is changed by `%s` between the read and get_message%s: what is judged is not the line's "
+                                "own digit sequence (an unterminated last line loses a character)" % (
+                                    nm, "" if nm not in ("pop", "truncate") else " without a test that the terminator is there"), reg.loc(bi)))
+    except Broken:
+        pass
     # the gate's own use of the line: chars -> filter_map(to_digit 16) (E2 verified by the exact vector comparison above)
     rep.instances("R02.1", 1 + len(chain), floor=2)
     # ---- R02.4
